@@ -149,13 +149,34 @@ func TestC01Sweep(t *testing.T) {
 			if res == nil {
 				failf(ct, "C01", "qr-roundtrip", c, "content at the capacity of version %d rejected", j.v)
 			}
-			if res.Version != j.v {
+			if res.Version > j.v || (res.Version != j.v && c.Mode != 0) {
 				failf(ct, "C01", "qr-roundtrip", c, "content sized for version %d produced version %d", j.v, res.Version)
 			}
 			c01Account(st, c, res)
 		})
 	})
-	st.Set("sweep_domain", "all 160 (version, level) x 3 modes at capacity; thorough adds the lower boundary and Auto")
+	// every byte value inside digit, alphanumeric and byte surroundings, through every mode: a character that one mode
+	// must refuse (or Auto must send to byte mode) and an encoder quietly maps to something else
+	var bytesweep []QRCase
+	for b := 0; b < 256; b++ {
+		for _, ctx := range [][2]string{{"AB", "CD"}, {"12", "345"}, {"", ""}, {"a", "b"}, {"$%", ""}} {
+			for mode := 0; mode <= 3; mode++ {
+				bytesweep = append(bytesweep, QRCase{Content: BStr(ctx[0] + string([]byte{byte(b)}) + ctx[1]), Level: (b + mode) % 4, Mode: mode})
+			}
+		}
+	}
+	parallelFor(len(bytesweep), 16, func(i int) {
+		if ct.Failed() {
+			return
+		}
+		ct.guard(func() {
+			res := checkQRRoundTrip(ct, bytesweep[i])
+			st.Eval()
+			c01Account(st, bytesweep[i], res)
+			st.Class("every byte value in five surroundings x four modes")
+		})
+	})
+	st.Set("sweep_domain", "all 160 (version, level) x 3 modes at capacity; thorough adds the lower boundary and Auto; every byte value in five surroundings x 4 modes")
 	if ct.Failed() {
 		t.Fatalf("%s", ct.first)
 	}
